@@ -288,8 +288,10 @@ class StreamReal:
         e = f.exception()
         if e is not None:
             return _exc_outcome(e)
-        r = f.result()
-        return ["ok", conv(r) if conv else []]
+        r = conv(f.result()) if conv else []
+        if r[:1] == ["!type"]:
+            return ["oktype", r[1]]       # a result of the wrong type (distinct tag: TLC compares tuples elementwise)
+        return ["ok", r]
 
     def _read_conv(self, kind, buf):
         def conv(r):
@@ -428,19 +430,22 @@ def stream_sig(cfg, path, i, obs):
             return None
         if o[0] == "exc":
             return "/".join(str(x) for x in o[:3])
-        if o[0] == "ok" and isinstance(o[1], list) and o[1][:1] == ["!type"]:
-            return "ok:!type:" + str(o[1][1])
+        if o[0] == "oktype":
+            return "ok:!type:" + str(o[1])
         return o[0]
     # history shape: kind and outcome of the previous read
-    prev_kind, prev_out = None, None
+    prev_kind, prev_out, into_failed, delim_failed = None, None, False, False
     for t in path[:i]:
         if t["act"] == "read":
             prev_kind = t["args"][0][0]
         if prev_kind is not None:
             prev_out = t["exp"]["rd"][0]
+            into_failed = into_failed or (prev_kind == "into" and prev_out == "exc")
+            delim_failed = delim_failed or (prev_kind in ("until", "regex") and prev_out == "exc")
     sig = {"act": s["act"], "differs": diff, "exp_st": exp["st"], "obs_st": obs.get("st"),
            "exp_rd": tag(exp["rd"]), "obs_rd": tag(obs.get("rd") or []),
-           "prev_read": "%s:%s" % (prev_kind, prev_out) if prev_kind else "none"}
+           "prev_read": "%s:%s" % (prev_kind, prev_out) if prev_kind else "none",
+           "failed_into_before": into_failed, "failed_delim_before": delim_failed}
     if k0:
         sig["read_kind"] = k0
     return sig
